@@ -30,7 +30,10 @@ DECL = {
     "pi": '<?p i?>',
 }
 CHANNELS = {"none": ["text", "bytes", "stringio", "bytesio", "rawstream", "bufstream", "textstream"],
-            "local": ["path", "fileurl"], "remote": ["http"]}
+            "local": ["path", "fileurl", "text@local", "bytesio@local"],
+            "remote": ["http", "text@remote", "bytes@remote", "bytesio@remote"]}
+# channel "x@local" / "x@remote": data supplied with a base_url of that class (the data has no URL of its own: its
+# locality is that of the base URL)
 
 
 class Raw(io.RawIOBase):
@@ -89,8 +92,17 @@ def render(prolog, role, variant):
     return head + misc + pad + doctype + body
 
 
+def base_for(channel, tmp):
+    if channel.endswith("@local"):
+        return "file://" + tmp + "/"
+    if channel.endswith("@remote"):
+        return c12.REMOTE + "/base/"
+    return None
+
+
 def source_for(channel, text, tmp, name):
     data = text.encode("utf-8")
+    channel = channel.split("@")[0]
     if channel == "text":
         return text
     if channel == "bytes":
@@ -161,10 +173,12 @@ def judge(job):
                         warnings.simplefilter("ignore")
                         if role == "instance":
                             res = xmlschema.XMLResource(source_for(channel, text, tmp, "doc.xml"),
+                                                        base_url=base_for(channel, tmp),
                                                         defuse=rec["defuse"], allow="all")
                             shape = tree_shape(res.root)
                         elif role == "schema":
                             s = xmlschema.XMLSchema(source_for(channel, text, tmp, "main.xsd"),
+                                                    base_url=base_for(channel, tmp),
                                                     defuse=rec["defuse"], allow="all")
                             shape = ("schema", sorted(s.elements))
                         else:
